@@ -112,6 +112,7 @@ type exec struct {
 	spec    *model
 	vari    *model
 	conns   []*fix.Conn
+	cps     map[int][]byte // the CONNECT each live connection was opened with
 	inproc  []*inprocSub
 	msgno   int
 	pid     uint16
@@ -435,6 +436,10 @@ func (e *exec) doConnectOpt(ci int, clean bool, w *Will, eofData bool) {
 		cp.WillTopic, cp.WillMessage = []byte(w.Topic), mw.Payload
 		e.class("connect-with-will")
 	}
+	if e.cps == nil {
+		e.cps = map[int][]byte{}
+	}
+	e.cps[ci] = codec.Encode(cp)
 	ack, err := c.Connect(cp)
 	if err != nil {
 		if err == wire.ErrTimeout {
@@ -471,6 +476,56 @@ func (e *exec) doConnectOpt(ci int, clean bool, w *Will, eofData bool) {
 			e.report(dRoute, "-", "client %d received %d PUBLISH packet(s) right after CONNACK although nothing was published", ci, len(pubs))
 		}
 	}
+}
+
+// doAbortedConnect: a connection attempt that dies between the broker reading
+// the CONNECT (CleanSession=0) and writing the CONNACK. Only made while the
+// client is not connected and a persistent session of its identifier is
+// stored: that state must still be there afterwards (nothing was established,
+// nothing asked for its removal).
+func (e *exec) doAbortedConnect(ci int) {
+	if e.conns[ci] != nil {
+		return
+	}
+	if _, ok := e.spec.sessions[clientID(ci)]; !ok {
+		return
+	}
+	c := e.b.DialStalled(clientID(ci))
+	cp := wire.ConnectPacket(clientID(ci), false, 120)
+	if err := c.SendRawTimeout(codec.Encode(cp), wire.DefaultWait); err != nil {
+		e.report(dLive, "-", "client %d: CONNECT of an attempt that is then aborted could not be written: %v", ci, err)
+	}
+	// the broker has read the CONNECT; its CONNACK cannot be delivered (nobody reads)
+	settled(200 * time.Millisecond)
+	c.Close()
+	if !c.WaitTeardown(wire.DefaultWait) {
+		e.hang(fmt.Sprintf("teardown of client %d's aborted connection attempt", ci))
+		return
+	}
+	e.class("connect-aborted-before-connack")
+	e.checkWill(nil)
+}
+
+// doSecondConnect: the client sends its CONNECT a second time on the live
+// connection (a protocol violation, MQTT-3.1.0-2). A broker may ignore it or
+// treat it as an error and drop the client; in the second case the connection
+// has ended without a DISCONNECT packet, so the will is due.
+func (e *exec) doSecondConnect(ci int) {
+	c := e.conns[ci]
+	if c == nil || e.cps[ci] == nil {
+		return
+	}
+	c.SendRaw(e.cps[ci])
+	if rx, err := c.Barrier(); err == nil {
+		e.class("second-connect-ignored")
+		if pubs, _ := pubsOf(rx); len(pubs) > 0 {
+			e.report(dRoute, "-", "client %d received %d PUBLISH packet(s) after a repeated CONNECT although nothing was published", ci, len(pubs))
+		}
+		e.checkWill(nil)
+		return
+	}
+	e.class("second-connect-ends-the-connection")
+	e.doEnd(ci, "garbage-sent") // the broker closed the connection: an abnormal end
 }
 
 // doEnd ends connection ci: "disconnect" (DISCONNECT packet), "close"
@@ -523,6 +578,9 @@ func (e *exec) doEnd(ci int, how string) {
 		close(release)
 		fix.SetYield(nil)
 		how = "disconnect-close"
+	case "garbage-sent":
+		// the offending packet was sent already; the broker is closing the connection
+		how = "garbage"
 	case "garbage":
 		c.SendRaw([]byte{0xF0, 0x00}) // reserved packet type 15
 	default:
@@ -1149,6 +1207,10 @@ func runPlan(p Plan, known func(string) bool) outcome {
 			if e.conns[op.C] != nil {
 				e.doEnd(op.C, op.K)
 			}
+		case "aborted-connect":
+			e.doAbortedConnect(op.C)
+		case "second-connect":
+			e.doSecondConnect(op.C)
 		case "isub":
 			if len(e.inproc) > 0 {
 				e.doInprocSub(op)
